@@ -34,6 +34,8 @@ pub enum PKind {
     /// a writer that stalled for hours between creating its temp file (in the cache's own
     /// `.kismet_temp`) and publishing it with set
     StaleSet,
+    /// set whose value file was staged on ANOTHER filesystem (rename/link fail with EXDEV)
+    SetOtherFs,
 }
 
 #[derive(Clone, Debug, PartialEq, Eq, Hash, Serialize, Deserialize)]
@@ -322,6 +324,29 @@ fn perform(root: &Path, l: &Layout, h: &Handle, ro: &Option<Handle>, tid: usize,
             } else {
                 (exec(root, handle, &mk(OpKind::Get)).0, None)
             }
+        }
+        PKind::SetOtherFs => {
+            let dir = std::path::PathBuf::from(format!("/var/tmp/kv-xfs-{}", std::process::id()));
+            let path = dir.join(format!("v-{}-{}", tid, i));
+            let staged = shim::bypass(|| std::fs::create_dir_all(&dir).and_then(|_| std::fs::write(&path, val.encode())).is_ok());
+            if !staged {
+                return (Ret::Unit, None);
+            }
+            let r = std::panic::catch_unwind(std::panic::AssertUnwindSafe(|| match h {
+                Handle::Plain(c) => c.set(&ks.name, &path),
+                Handle::Sharded(c) => c.set(ks.key(), &path),
+                Handle::Stack(c, _) => c.set(ks.key(), &path),
+                Handle::Ro(..) => Ok(()),
+            }));
+            shim::bypass(|| {
+                let _ = std::fs::remove_file(&path);
+            });
+            let ret = match r {
+                Ok(Ok(())) => Ret::Unit,
+                Ok(Err(e)) => Ret::Err(e.into()),
+                Err(_) => Ret::Panic("set panicked".into()),
+            };
+            (ret, Some(val))
         }
         PKind::StaleSet => {
             // the temp file was created two hours ago in the cache's own temp directory ...
